@@ -41,6 +41,9 @@ def judge(got: Rat, want: Rat) -> Tuple[str, str]:
     return "differs", anf.explain_difference(got, want)
 
 
+from ..guards import equalities_of  # noqa: E402
+
+
 class RuleCtx:
     """Small façade over Context for rule modules."""
 
@@ -93,6 +96,15 @@ class RuleCtx:
             verdict, why = judge(v, want)
             if verdict == "equal":
                 continue
+            eqs = equalities_of(gg)
+            if eqs:
+                # on this path some symbols have a known value (`if m == 0: ...`): compare under that knowledge
+                try:
+                    verdict2, _w2 = judge(anf.replace_atoms(v, eqs), anf.replace_atoms(want, eqs))
+                except ZeroDivisionError:
+                    verdict2 = "differs"
+                if verdict2 == "equal":
+                    continue
             ok = False
             if verdict == "inconclusive":
                 self.res.error(f"INCONCLUSIVE {rule} {fi.qualname} ({what}): {why}")
